@@ -341,6 +341,17 @@ let run_norm (proto : string) (su : string) (toks : string list) : string =
      | None -> "ok TOOBIG"
      | Some d -> "ok " ^ string_of_bytes d)
 
+(* C18's theorem: what Decode with the registry hook returns for Encode's output *)
+let run_normh (proto : string) (su : string) (toks : string list) : string =
+  let (v, _) = parse_rval toks in
+  let cfg = { e_proto = z_of_dec proto; e_strict = (su = "1"); e_isprint = is_print_hi; e_fmtg = fmt_g } in
+  match norm cfg v with
+  | None -> "NA"
+  | Some t ->
+    (match dump_val_capped [] (unerase (hmap inv_g t)) with
+     | None -> "ok TOOBIG"
+     | Some d -> "ok " ^ string_of_bytes d)
+
 (* C05's theorem: decode, reify the result, encode it again (NA outside the theorem's fragment) *)
 let run_reenc (proto : string) (pd : string) (su : string) (hex : string) : string =
   let ecfg = { e_proto = z_of_dec proto; e_strict = (su = "1"); e_isprint = is_print_hi; e_fmtg = fmt_g } in
@@ -445,6 +456,7 @@ let load_hook (mode : int) : (n -> val0 -> load_result) option =
   | 3 -> logged (fun idx _ ->
            match int_of_n idx mod 3 with 0 -> LObj (VUser idx) | 1 -> LNil | _ -> LErr)
   | 4 -> logged (fun idx pid -> match pid with VStr _ -> LObj (VUser idx) | _ -> LNil)
+  | 5 -> logged inv_load        (* the registry hook of Model/Norm.v (hook_spec proved: inv_hook_ok) *)
   | _ -> failwith "bad load mode"
 
 let cfg_of (pd : string) (su : string) (lm : string) : dconfig =
@@ -639,6 +651,7 @@ let handle (line : string) : string =
      | ((r, _), _) -> "decode " ^ show_res (fun _ -> "") r)
   | "enc" :: proto :: su :: failat :: rest -> run_enc proto su failat rest
   | "norm" :: proto :: su :: rest -> run_norm proto su rest
+  | "normh" :: proto :: su :: rest -> run_normh proto su rest
   | "qload" :: rest -> run_qload (match rest with [h] -> h | _ -> "")
   | "decchunk" :: pd :: su :: _ :: sched :: rest -> run_dec_chunk pd su sched (match rest with [h] -> h | _ -> "")
   | "prog" :: proto :: su :: rest -> run_prog proto su rest
